@@ -501,7 +501,7 @@ fn edge_case(rng: &mut Rng, rep: &mut Report, big: bool) {
 
 pub fn run(tier: Tier, seed: u64) -> MonOut {
     let saved = silence_stderr();
-    let n = tier.n(600, 30_000);
+    let n = tier.n(12_000, 400_000);
     let rep = par_cases(seed, n, |i, rng, rep| {
         let big = rng.chance(0.08);
         if i % 2 == 0 {
